@@ -300,6 +300,19 @@ def run(tier: str, seed: int) -> int:
         if i % 3 == 0 and "override" not in c:
             c["override"] = {"maxcor": r.choice([1, 2, 3])}
         cases.append(c)
+    # restart chains with ample budgets, so that the checkpoints carry several pairs (the order in which a restart
+    # restores them, and which ones it keeps when maxcor shrinks, shows only then)
+    for i in range(nrun // 6):
+        s = seed * 1_000_003 + 300_000 + i
+        r = random.Random(s)
+        k1 = r.choice([3, 4, 6, 9])
+        legs = [{"maxiter": k1}, {"maxiter": k1 + r.choice([0, 1, 3]), **({"maxcor": r.choice([2, 3])} if r.random() < 0.4 else {})},
+                {"maxiter": k1 + r.choice([4, 6])}]
+        cases.append({"seed": s, "kind": "run", "chain": legs[:r.choice([2, 3])],
+                      "families": ["qp", "qp_quartic", "qp_softplus", "rosen", "styb"],
+                      "features": {"jac": r.choice(["callable", "callable", "2-point"]), "callback": r.choice(["false", "none"]),
+                                   "ftarget": "none", "gtol_callable": False, "scaler": "none", "update": "none"},
+                      "override": {"ftol": 0.0, "gtol": 1e-12, "maxfun": 15000, "maxls": 20, "maxcor": r.choice([3, 5, 10])}})
     for i in range(ndiag):
         s = seed * 1_000_003 + 500_000 + i
         r = random.Random(s)
